@@ -135,6 +135,23 @@ void exports_valprobe_echo_person(valprobe_person_t *a, valprobe_person_t *ret) 
   if (ret_tags_len) { __CPROVER_assume(ret->tags.ptr != NULL); fill_bytes(ret->tags.ptr, ret_tags_len, ret_tags); }
 }
 static _Bool seen_rstr_err, ret_rstr_err; static uint32_t seen_rstr_code, ret_rstr_code;
+/* scalars of every width in one record, flags using all 32 bits, nested options */
+static valprobe_scal_t seen_scal, ret_scal; static valprobe_big_t seen_big, ret_big;
+static _Bool seen_oo_outer, seen_oo_inner, ret_oo_outer, ret_oo_inner; static uint8_t seen_oo, ret_oo;
+void exports_valprobe_echo_scal(valprobe_scal_t *a, valprobe_scal_t *ret) { calls++; seen_scal = *a; *ret = ret_scal; }
+valprobe_big_t exports_valprobe_echo_big(valprobe_big_t a) { calls++; seen_big = a; return ret_big; }
+#ifdef NOFLAT
+void exports_valprobe_echo_oo(valprobe_option_option_u8_t *a, valprobe_option_option_u8_t *ret) {
+  calls++; seen_oo_outer = a->is_some; if (a->is_some) { seen_oo_inner = a->val.is_some; if (a->val.is_some) seen_oo = a->val.val; }
+  ret->is_some = ret_oo_outer; if (ret_oo_outer) { ret->val.is_some = ret_oo_inner; if (ret_oo_inner) ret->val.val = ret_oo; }
+}
+#else
+bool exports_valprobe_echo_oo(valprobe_option_u8_t *maybe_a, valprobe_option_u8_t *ret) {
+  calls++; seen_oo_outer = maybe_a != NULL; if (maybe_a) { seen_oo_inner = maybe_a->is_some; if (maybe_a->is_some) seen_oo = maybe_a->val; }
+  if (ret_oo_outer) { ret->is_some = ret_oo_inner; if (ret_oo_inner) ret->val = ret_oo; }
+  return ret_oo_outer;
+}
+#endif
 /* results with only one payload: result<u32> and result<_, u8> */
 static _Bool seen_r1_err, ret_r1_err; static uint32_t seen_r1, ret_r1;
 #ifdef NOFLAT
@@ -208,6 +225,20 @@ static void fvar_set(verif_val_t_fvar_t *v, uint8_t tag, uint64_t bits) {
   else { union f64bits b; b.u = bits; v->val.d = b.d; }
 }
 
+/* the host side of fetch-names(n) -> list<string>: the host allocates the list and every string in the guest through cabi_realloc and
+ * stores (pointer, length) in the return area; afterwards all of it belongs to the caller */
+static unsigned fetch_calls; static uint32_t fetch_arg; static size_t fetch_len, fetch_inner; static cu_t fetch_unit;
+void __wasm_import_verif_val_sinks_fetch_names(int32_t n, uint8_t *ret) {
+  fetch_calls++; fetch_arg = (uint32_t) n;
+  uint8_t *list = (uint8_t *) cabi_realloc(NULL, 0, P, 2 * P * fetch_len);
+  for (size_t i = 0; i < fetch_len; i++) {
+    uint8_t *e = (uint8_t *) cabi_realloc(NULL, 0, CUSZ, CUSZ * fetch_inner);
+    if (fetch_inner) ((cu_t *) e)[0] = fetch_unit;
+    *((uint8_t **) (list + 2 * P * i)) = e; *((size_t *) (list + 2 * P * i + P)) = fetch_inner;
+  }
+  *((uint8_t **) (ret + 0)) = list; *((size_t *) (ret + P)) = fetch_len;
+}
+
 /* a buffer as the host obtains it from cabi_realloc */
 static uint8_t *host_alloc(size_t size, size_t align) {
   uint8_t *p = (uint8_t *) cabi_realloc(NULL, 0, align, size);
@@ -252,6 +283,39 @@ void c10_result(void) {
   ASSERT(calls == 1 && seen_res.is_err == err && (err ? seen_res.val.err == (uint8_t) v : seen_res.val.ok == v), "C10: the result the host sent arrives unchanged");
   ASSERT(RD(uint8_t, ret, 0) == (ret_res.is_err ? 1 : 0), "C10: the returned discriminant");
   ASSERT(ret_res.is_err ? RD(uint8_t, ret, 4) == (uint8_t) rv : RD(uint32_t, ret, 4) == rv, "C10: the returned payload at offset 4");
+}
+union f32b { float f; uint32_t u; }; union f64b { double d; uint64_t u; };
+void c10_scalar_record(void) {
+  stale_ret_area();
+  _Bool b = nondet_bool(), rb = nondet_bool(); uint32_t c = nondet_uint(), rc = nondet_uint();
+  __CPROVER_assume((c < 0xD800 || (c > 0xDFFF && c <= 0x10FFFF)) && (rc < 0xD800 || (rc > 0xDFFF && rc <= 0x10FFFF)));   /* unicode scalar values */
+  int8_t s8 = nondet_uchar(), rs8 = nondet_uchar(); int16_t s16 = nondet_uint(), rs16 = nondet_uint(); int64_t s64 = nondet_ulonglong(), rs64 = nondet_ulonglong();
+  union f32b f, rf; f.u = nondet_uint(); rf.u = nondet_uint(); union f64b d, rd; d.u = nondet_ulonglong(); rd.u = nondet_ulonglong();
+  ret_scal.b = rb; ret_scal.c = rc; ret_scal.s = rs8; ret_scal.h = rs16; ret_scal.l = rs64; ret_scal.f = rf.f; ret_scal.d = rd.d;
+  /* the host sign-extends s8 / s16 into the i32 (CanonicalABI.md lower_flat) */
+  uint8_t *ret = __wasm_export_exports_valprobe_echo_scal(b ? 1 : 0, (int32_t) c, (int32_t) s8, (int32_t) s16, s64, f.f, d.d);
+  union f32b sf; sf.f = seen_scal.f; union f64b sd; sd.d = seen_scal.d;
+  ASSERT(calls == 1 && seen_scal.b == b && seen_scal.c == c && seen_scal.s == s8 && seen_scal.h == s16 && seen_scal.l == s64 && sf.u == f.u && sd.u == d.u,
+         "C10: bool, char, s8, s16, s64, f32 (bits), f64 (bits) arrive unchanged");
+  ASSERT(RD(uint8_t, ret, 0) == (rb ? 1 : 0) && RD(uint32_t, ret, 4) == rc && RD(int8_t, ret, 8) == rs8 && RD(int16_t, ret, 10) == rs16 && RD(int64_t, ret, 16) == rs64
+         && RD(uint32_t, ret, 24) == rf.u && RD(uint64_t, ret, 32) == rd.u, "C10: the returned record is stored at its canonical offsets (0, 4, 8, 10, 16, 24, 32)");
+}
+/* 32 flags: the widest flags type a component may contain (wasmparser rejects more than 32), so bit 31 - the sign bit of the core i32 - is a flag */
+void c10_flags_32_members(void) {
+  stale_ret_area();
+  uint32_t v = nondet_uint(), rv = nondet_uint();
+  ret_big = rv;
+  int32_t r = __wasm_export_exports_valprobe_echo_big((int32_t) v);
+  ASSERT(calls == 1 && seen_big == v, "C10: a flags value of 32 flags arrives as exactly that set (bit 31 included)");
+  ASSERT((uint32_t) r == rv, "C10: the returned flags are the returned bit set");
+}
+void c10_nested_option(void) {
+  stale_ret_area();
+  _Bool o = nondet_bool(), i = nondet_bool(); uint8_t v = nondet_uchar(); ret_oo_outer = nondet_bool(); ret_oo_inner = nondet_bool(); ret_oo = nondet_uchar();
+  uint8_t *ret = __wasm_export_exports_valprobe_echo_oo(o ? 1 : 0, o && i ? 1 : 0, o && i ? v : 0);
+  ASSERT(calls == 1 && seen_oo_outer == o && (!o || (seen_oo_inner == i && (!i || seen_oo == v))), "C10: option<option<u8>> arrives unchanged (none, some(none), some(some(v)) are distinct)");
+  ASSERT(RD(uint8_t, ret, 0) == (ret_oo_outer ? 1 : 0) && (!ret_oo_outer || (RD(uint8_t, ret, 1) == (ret_oo_inner ? 1 : 0) && (!ret_oo_inner || RD(uint8_t, ret, 2) == ret_oo))),
+         "C10: the returned nested option is stored canonically (outer @0, inner @1, payload @2)");
 }
 void c10_result_one_payload(void) {
   stale_ret_area();
@@ -420,6 +484,16 @@ void c10_c11_result_with_string(void) {
     ASSERT(RD(uint8_t, ret, 0) == 0 && rl == m && (m < 1 || rp[0] == ret_u[0]) && (m < 2 || rp[1] == ret_u[1]), "C10: ok(string) reaches the host unchanged");
   }
   __wasm_export_exports_valprobe_echo_rstr_post_return(ret);
+}
+/* heap data returned by an import belongs to the caller: the values arrive unchanged and the generated free helper releases all of it */
+void c10_c11_import_result_list_of_strings(void) {
+  fetch_len = nondet_uint(); fetch_inner = nondet_uint(); __CPROVER_assume(fetch_len <= 2 && fetch_inner <= 1); fetch_unit = nondet_cu();
+  uint32_t n = nondet_uint(); valprobe_list_string_t r;
+  verif_val_sinks_fetch_names(n, &r);
+  ASSERT(fetch_calls == 1 && fetch_arg == n, "C10: exactly one core call with the flat argument");
+  ASSERT(r.len == fetch_len, "C10: the list the host returned arrives with its length");
+  for (size_t i = 0; i < fetch_len; i++) ASSERT(r.ptr[i].len == fetch_inner && (!fetch_inner || r.ptr[i].ptr[0] == fetch_unit), "C10: each string the host returned arrives unchanged");
+  valprobe_list_string_free(&r);   /* C11: the caller owns the result; the generated helper releases every string and the list (leak check) */
 }
 /* import arguments are borrowed: passed, left untouched, still owned (and freed) by the caller */
 void c11_import_arguments_untouched(void) {
